@@ -8,6 +8,7 @@ import (
 	"github.com/massnetorg/mass-core/logging"
 	"gopkg.in/karalabe/cookiejar.v2/collections/prque"
 	"massnet.org/mass/poc/engine.v2"
+	"massnet.org/mass/verifhook"
 )
 
 type queuedWorkSpace struct {
@@ -120,7 +121,9 @@ func (sk *SpaceKeeper) spacePlotter() {
 		sk.stateLock.Unlock()
 
 		// Step 2: plot space (wait for finishing)
+		verifhook.Point("plotter.plotting", sk, sid)
 		ws.Plot()
+		verifhook.Point("plotter.plotted", sk, sid)
 
 		// Step 3: change workSpace state
 		sk.stateLock.Lock()
@@ -173,13 +176,16 @@ func (sk *SpaceKeeper) spacePlotter() {
 			}
 
 			qws := sk.queue.PopItem()
+			verifhook.Point("plotter.popped", sk, qws.ws.id.String())
 			killMonitorCh := make(chan struct{}, 1)
 			wg.Add(1)
 			go monitor(qws.ws, killMonitorCh)
 			plotSpace(qws)
 			close(killMonitorCh)
+			verifhook.Point("plotter.stepDone", sk, qws.ws.id.String())
 		}
 
+		verifhook.Point("plotter.idle", sk)
 		select {
 		case <-sk.quit:
 			wg.Wait()
